@@ -11,7 +11,7 @@ git checkout -q --detach "$(git -C /repo rev-parse HEAD)" 2>/dev/null
 git checkout -q -- . ; git clean -fdq -e target -e Cargo.lock
 cp /repo/Cargo.lock . ; mkdir -p tests; cp "$SRC/demo.rs" tests/demo.rs
 ok=1
-out=$(cargo test --offline --test demo 2>&1); c0=$?
+out=$(cargo test --offline --features verif-hooks --test demo 2>&1); c0=$?
 echo "[$NAME] demo WITHOUT patch: exit $c0 ($(echo "$out" | grep 'test result' | tail -1))"
 [ $c0 -eq 0 ] || ok=0
 if ! git apply "$SRC/patch.diff"; then echo "[$NAME] patch does not apply to /repo HEAD"; exit 1; fi
@@ -21,7 +21,7 @@ echo "[$NAME] lib tests WITH patch: exit $c1 ($(echo "$out" | grep 'test result'
 out=$(cargo test --offline --doc 2>&1); c3=$?
 echo "[$NAME] doc tests WITH patch: exit $c3 ($(echo "$out" | grep 'test result' | tail -1))"
 [ $c3 -eq 0 ] || ok=0
-out=$(cargo test --offline --test demo 2>&1); c2=$?
+out=$(cargo test --offline --features verif-hooks --test demo 2>&1); c2=$?
 echo "[$NAME] demo WITH patch: exit $c2 ($(echo "$out" | grep 'test result' | tail -1))"
 [ $c2 -ne 0 ] || ok=0
 git checkout -q -- . ; rm -f tests/demo.rs
